@@ -57,18 +57,35 @@ func runStress(t []string) string {
 	if e1 != nil || e2 != nil || n < 1 || n > 256 || ms < 1 || ms > 60000 {
 		return "bad-op"
 	}
-	s := newSUT(0.5, 0, false)
-	defer s.close()
 	seed, _ := strconv.Atoi(t[3])
+	// ratio and jitter bound vary with the seed: delays differ (0 .. whole lifetime), the observables do not
+	s := newSUT([]float64{0.5, 0.75, 0.25, 1, 0}[seed%5], []float64{0, 0.5, 0.1}[seed%3], false)
+	defer s.close()
 	failing := seed%2 == 1
 	s.ca.delay = 200 * time.Microsecond
 	s.ca.script = func(i int) caOutcome {
 		if failing && i%5 == 2 {
 			return caOutcome{kind: "signerr", signer: 'A', bundle: "-"}
 		}
-		return caOutcome{kind: "ok", ttl: time.Hour, signer: byte('A' + (i/3)%2), bundle: "-"}
+		// roots alternate with every call; every 6th response publishes a bundle (GetRootCertBundle non-empty),
+		// every 11th certificate is already expired when issued (TTL < 0)
+		oc := caOutcome{kind: "ok", ttl: time.Hour, signer: byte('A' + i%2), bundle: "-"}
+		if i%6 == 4 {
+			oc.bundle = string([]byte{oc.signer, 'A' + byte((i+1)%2)})
+		}
+		if i%11 == 7 {
+			oc.ttl = -time.Hour
+		}
+		return oc
 	}
 	s.q.syncRun = func(idx int) bool { return idx%4 == 1 }
+	// the first push and every 8th are slow: requests overlap the window between SetWorkload(&item) and SetRoot
+	s.q.slowPush = func(idx int) time.Duration {
+		if idx%8 == 0 {
+			return 2 * time.Millisecond
+		}
+		return 0
+	}
 	var violation atomic.Value
 	fail := func(v string) { violation.CompareAndSwap(nil, v) }
 	stop := make(chan struct{})
@@ -85,16 +102,29 @@ func runStress(t []string) string {
 			f()
 		}()
 	}
-	var clears, rootEvents int64 // `default` callbacks, `ROOTCA` callbacks
+	var clears, rootEvents, rootNotInPlace int64 // `default` callbacks, `ROOTCA` callbacks, of those: announced value not stored
+	var bundleMu sync.Mutex
+	var bundleNow []byte // the bundle the (single) updater is storing, nil outside UpdateConfigTrustBundle
+	inBundle := false
 	s.sc.RegisterSecretHandler(func(name string) {
 		switch name {
 		case security.WorkloadKeyCertResourceName:
 			atomic.AddInt64(&clears, 1)
 		case security.RootCertReqResourceName:
 			atomic.AddInt64(&rootEvents, 1)
+			// R / r under concurrency: a GenerateSecret callback is made under generateMutex, so certRoot must be the
+			// root of the latest successful CA response; a bundle callback comes from the only updater, so
+			// configTrustBundle must be the bundle it is storing.  Which of the two this callback is cannot be told:
+			// it is in place if either holds.
+			bundleMu.Lock()
+			okBundle := inBundle && bytes.Equal(nacache.VerifConfigTrustBundle(s.sc), bundleNow)
+			bundleMu.Unlock()
+			if !okBundle && !s.rootAnnouncedInPlace() {
+				atomic.AddInt64(&rootNotInPlace, 1)
+			}
 		}
 	})
-	var bundleCalls int64
+	var bundleChanges int64
 	for g := 0; g < n; g++ {
 		g := g
 		guard("gen", func() {
@@ -107,6 +137,10 @@ func runStress(t []string) string {
 				name := security.WorkloadKeyCertResourceName
 				if (g+k)%3 == 0 {
 					name = security.RootCertReqResourceName
+				}
+				low := 0
+				if name == security.RootCertReqResourceName {
+					low = s.lowCandidate()
 				}
 				it, err := s.sc.GenerateSecret(name)
 				if err != nil && failing {
@@ -127,8 +161,13 @@ func runStress(t []string) string {
 				}
 				if name == security.RootCertReqResourceName {
 					l := rootLetters(it.RootCert)
-					if len(it.RootCert) == 0 || l == "-" || !strings.ContainsAny(l, "AB") || strings.Trim(l, "ABCD") != "" {
+					if len(it.RootCert) == 0 || l == "-" || strings.Trim(l, "ABCD") != "" {
 						fail("rootca-content " + l)
+					}
+					// the answer must contain the roots of a certificate that was cached during the call: the one
+					// cached just before it, or one issued since (older ones can never be cached again)
+					if !s.containsRootsOfSome(l, low) {
+						fail(fmt.Sprintf("rootca-stale-root answer=%s first-candidate=%d", l, low))
 					}
 				}
 				if nonCARoot(it.RootCert) {
@@ -165,15 +204,31 @@ func runStress(t []string) string {
 		}
 	})
 	guard("bundle", func() {
+		prevBundle := "-"
 		for k := 0; ; k++ {
 			select {
 			case <-stop:
 				return
 			default:
 			}
-			b := []byte(strings.Join(bundlePEMs([]string{"C", "D", "CD"}[k%3]), ""))
+			// repeats ("skip for same trust bundle") and empty bundles included; single updater: it changes iff it
+			// differs from the previous one
+			name := []string{"C", "C", "-", "D", "CD", "CD", "-", "-", "D"}[k%9]
+			var b []byte
+			if name != "-" {
+				b = []byte(strings.Join(bundlePEMs(name), ""))
+			}
+			if name != prevBundle {
+				atomic.AddInt64(&bundleChanges, 1)
+			}
+			prevBundle = name
+			bundleMu.Lock()
+			bundleNow, inBundle = b, true
+			bundleMu.Unlock()
 			_ = s.sc.UpdateConfigTrustBundle(b)
-			atomic.AddInt64(&bundleCalls, 1)
+			bundleMu.Lock()
+			inBundle = false
+			bundleMu.Unlock()
 			time.Sleep(time.Duration(150+(k%4)*200) * time.Microsecond)
 		}
 	})
@@ -210,7 +265,7 @@ func runStress(t []string) string {
 	}
 	// quiescent end state
 	calls := 0 // successful CA calls
-	wantR := int(atomic.LoadInt64(&bundleCalls))
+	wantR := int(atomic.LoadInt64(&bundleChanges))
 	prevRoots := ""
 	s.ca.mu.Lock()
 	for _, r := range s.ca.recs {
@@ -229,6 +284,9 @@ func runStress(t []string) string {
 	}
 	if got := int(atomic.LoadInt64(&rootEvents)); got != wantR {
 		return fmt.Sprintf("violated root-announce-count got=%d want=%d", got, wantR)
+	}
+	if n := atomic.LoadInt64(&rootNotInPlace); n != 0 {
+		return fmt.Sprintf("violated announce-before-store callbacks=%d", n)
 	}
 	if s.q.len() != calls {
 		return fmt.Sprintf("violated queue-stores q=%d calls=%d", s.q.len(), calls)
@@ -272,6 +330,45 @@ func runStress(t []string) string {
 		fmt.Fprintf(os.Stderr, "stress: calls=%d clears=%d q=%d\n", calls, cl, s.q.len())
 	}
 	return "ok calls>0 clears>0"
+}
+
+// lowCandidate: rank (among the successful CA responses) of the oldest certificate that can still be cached during a
+// call that starts now: the one cached now, else the latest issued (it may be in flight between CA and store).
+func (s *sut) lowCandidate() int {
+	if w := nacache.VerifCachedWorkload(s.sc); w != nil {
+		if k := s.okIndex(certID(w.CertificateChain)); k >= 0 {
+			return k
+		}
+	}
+	s.ca.mu.Lock()
+	defer s.ca.mu.Unlock()
+	k := -1
+	for _, r := range s.ca.recs {
+		if r.out.kind == "ok" {
+			k++
+		}
+	}
+	if k < 0 {
+		return 0
+	}
+	return k
+}
+
+// containsRootsOfSome: the answer contains all roots of at least one successful response of rank >= low.
+func (s *sut) containsRootsOfSome(answer string, low int) bool {
+	s.ca.mu.Lock()
+	defer s.ca.mu.Unlock()
+	k := -1
+	for _, r := range s.ca.recs {
+		if r.out.kind != "ok" {
+			continue
+		}
+		k++
+		if k >= low && containsAll(answer, r.roots) {
+			return true
+		}
+	}
+	return false
 }
 
 // okIndex maps a CA call index (certificate serial - 1) to its rank among the successful calls.
